@@ -23,11 +23,18 @@ Violation ids: enumeration.incomplete, default.fresh-not-default, assign.valid-r
 roundtrip.{write-raises, write-mutates-source, text-not-yaml, duplicate-key, read-raises, default-unreadable, file-read-raises,
 written-key-not-recognised, value-differs, other-setting-changed, unicode-linebreak-differs}, versions.armi-stamped,
 short.{omits-nondefault, writes-default, writes-unknown-key}, medium.{omits-nondefault, omits-user-set, writes-unlisted-default},
-full.omits-setting, reject.{accepted-invalid, accepted-unlisted-option, value-changed, unlisted-option-kept-after-error},
+full.omits-setting, reject.{accepted-invalid, value-changed},
 rename.{map-wrong, raises, lost, wrong-target, expired-accepted}, copy.{raises, value-differs, aliasing, assign-lost, modified-value-wrong}.
-Input classes with an id of their own (fixed a priori, so that they do not hide the general id): the `versions` setting, which the
-writer stamps with the running armi version; unlisted values for option lists declared without enforcedOptions; strings holding
-U+0085/U+2028/U+2029.  When the reader refuses the written text, the settings whose own block is refused are reported and the
+Two input classes have an id of their own (fixed a priori; one record each, for the smallest input, emitted first):
+``versions.armi-stamped`` - the writer puts {armi: <running version>} into `versions`; used ONLY when the held and the written/read
+value differ in nothing but the key 'armi' and that key holds the running version (smallest input: default Settings(), short style);
+``roundtrip.unicode-linebreak-differs`` - a string holding U+0085/U+2028/U+2029; used ONLY when held and read-back value are equal
+once every run of those characters and white space is replaced by one blank (smallest input: comment = U+0085, short style).
+Any other difference on the same inputs gets the general ids, so these two cannot mask them.  At most 2 records per other id and
+20 in total are emitted (all are counted in ``violation_counts``); records are clipped to ~4 KB.
+Option lists declared WITHOUT enforcedOptions=True are suggestions (the schema is the arbiter): unlisted strings are valid values for
+those settings (round-tripped like any other) and their near-miss option values are counted in
+``skipped_non_enforced_option_values`` instead of being part of the rejection clause; enforced option lists are checked in full.  When the reader refuses the written text, the settings whose own block is refused are reported and the
 remaining text is still read and compared, so that one unreadable setting does not hide the others.
 
 Validity oracle.  A value is *valid* for a setting iff the setting's own schema admits it (the quantifier: "values admitted by
@@ -117,12 +124,40 @@ def jsonable(v):
     return repr(v)
 
 
+KNOWN_CLASS_IDS = ("versions.armi-stamped", "roundtrip.unicode-linebreak-differs")  # one record each: the smallest input, emitted first
+
+
+def shrink(inp, limit=4000):
+    """Keep a violation record small: long change lists are cut down to the offending setting, long strings are clipped."""
+    inp = jsonable(inp)
+    if len(json.dumps(inp, default=str)) <= limit:
+        return inp
+
+    def clip(v, n):
+        if isinstance(v, str):
+            return v if len(v) <= n else v[:n] + "...<%d chars>" % len(v)
+        if isinstance(v, list):
+            return [clip(x, n) for x in v[:12]] + (["...<%d items>" % len(v)] if len(v) > 12 else [])
+        if isinstance(v, dict):
+            return {k: clip(x, n) for k, x in list(v.items())[:30]}
+        return v
+
+    if isinstance(inp, dict) and isinstance(inp.get("changes"), list) and len(inp["changes"]) > 4:
+        focus = inp.get("setting") or inp.get("omitted") or inp.get("written")
+        inp = dict(inp, changes_total=len(inp["changes"]), changes=[c for c in inp["changes"] if c and c[0] == focus][:1])
+    for n in (300, 80, 20):
+        out = clip(inp, n)
+        if len(json.dumps(out, default=str)) <= limit:
+            return out
+    return {"clipped": json.dumps(out, default=str)[:limit]}
+
+
 def V(vid, what, inp, setting=None):
     VCOUNT[vid] += 1
     if setting is not None:
         VSETTINGS[vid].add(setting)
-    if VCOUNT[vid] <= 2:
-        B.violation(vid, what, jsonable(inp))
+    if VCOUNT[vid] <= (1 if vid in KNOWN_CLASS_IDS else 2):
+        B.violation(vid, what, shrink(inp))
     return False
 
 
@@ -184,6 +219,25 @@ def has_unicode_linebreak(v):
     return False
 
 
+def stamp_only(held, now):
+    """True when ``now`` is ``held`` with nothing but the running armi version put under the key 'armi'."""
+    strip = lambda d: {k: x for k, x in d.items() if k != "armi"}
+    return isinstance(held, dict) and isinstance(now, dict) and deq(strip(held), strip(now)) and now.get("armi") == RUNNING_VERSION
+
+
+def linebreak_explains(held, readBack):
+    """True when the two values differ only where ``held`` has U+0085/U+2028/U+2029 (each read as some white space)."""
+    def flat(v):
+        if isinstance(v, str):
+            return re.sub("[\x85\u2028\u2029\\s]+", " ", v)
+        if isinstance(v, dict):
+            return {flat(k): flat(x) for k, x in v.items()}
+        if isinstance(v, (list, tuple)):
+            return [flat(x) for x in v]
+        return v
+    return has_unicode_linebreak(held) and deq(flat(held), flat(readBack))
+
+
 def values_of(cs):
     """name -> deep copy of the value held (read off the Setting objects: cs[name] refuses the simple-cycle names when
     ``cycles`` is set, which is access policy, not the value)."""
@@ -219,6 +273,8 @@ for plugin in getApp().pluginManager.get_plugins():
             if isinstance(item, Setting):
                 independent.add(item.name)
 import armi as _armi
+
+from armi.meta import __version__ as RUNNING_VERSION
 
 B.extra["armi_tree"] = os.path.dirname(os.path.dirname(os.path.abspath(_armi.__file__)))
 B.extra["settings_enumerated"] = len(NAMES)
@@ -354,8 +410,10 @@ def raw_candidates(name, rng):
         return MODULE_VERBOSITY
     if s.options:
         out = list(s.options)
-        if not s.enforcedOptions and name not in VERBOSITY_LIKE and THOROUGH:
-            pass  # unlisted strings for a non-enforced option list are exercised by the rejection clause
+        if not s.enforcedOptions and name not in VERBOSITY_LIKE:
+            # a list declared without enforcedOptions is a suggestion: the schema (Coerce(str)) is the arbiter, so unlisted
+            # strings are valid values and must survive as well
+            out += ["Not An Option: 1"] + (["", "yes", "007"] if THOROUGH else [])
         return out
     if isinstance(d, bool):
         return [not d, d]
@@ -509,7 +567,7 @@ def roundtrip(changes, style, setByUser=(), viaFile=None, label="roundtrip"):
         return V("roundtrip.write-raises", "the writer raises on valid settings", dict(desc, error="%s: %s" % (type(e).__name__, str(e)[:200])))
     after = values_of(cs)
     chg, _ = diff(before, after)
-    stampOnly = chg == ["versions"] and deq({k: x for k, x in after["versions"].items() if k != "armi"}, {k: x for k, x in before["versions"].items() if k != "armi"})
+    stampOnly = chg == ["versions"] and stamp_only(before["versions"], after["versions"])
     if chg and stampOnly:
         STAMP["seen"] += 1
         ok &= V("versions.armi-stamped", "writing puts the running armi version into the source object's `versions` setting", dict(desc, before=before["versions"], after=after["versions"]), "versions")
@@ -531,7 +589,7 @@ def roundtrip(changes, style, setByUser=(), viaFile=None, label="roundtrip"):
     else:
         want = set(NAMES)
     missing, extra = want - keys, keys - want
-    if "versions" in extra:  # the writer always emits versions: {armi: <running version>}
+    if "versions" in extra and stamp_only(before["versions"], doc["settings"]["versions"]):  # the writer always emits versions: {armi: <running version>}
         extra.discard("versions")
         STAMP["seen"] += 1
         ok &= V("versions.armi-stamped", "`versions` is written (with the running armi version) although it is at its default", dict(desc, written=jsonable(doc["settings"]["versions"])), "versions")
@@ -565,11 +623,11 @@ def roundtrip(changes, style, setByUser=(), viaFile=None, label="roundtrip"):
     for n in chg:
         if n in dropped:
             continue  # already reported as unreadable
-        if n == "versions" and deq({k: x for k, x in got[n].items() if k != "armi"}, {k: x for k, x in before[n].items() if k != "armi"}):
+        if n == "versions" and stamp_only(before[n], got[n]):
             STAMP["seen"] += 1
             ok &= V("versions.armi-stamped", "`versions` reads back with the running armi version stamped over what was held", dict(desc, held=before[n], readBack=got[n]), n)
             continue
-        if n in changedNames and has_unicode_linebreak(before[n]):
+        if n in changedNames and linebreak_explains(before[n], got[n]):
             # input class fixed a priori: strings holding U+0085 / U+2028 / U+2029 (line breaks to some YAML versions)
             ok &= V("roundtrip.unicode-linebreak-differs", "a string holding a Unicode line-break character reads back changed", dict(desc, setting=n, held=before[n], readBack=got[n]), n)
         elif n in changedNames:
@@ -593,6 +651,9 @@ def clause_roundtrip():
     for style in STYLES:
         B.case(("roundtrip", "<defaults>", style), {"clause": "roundtrip", "changes": [], "style": style})
         roundtrip([], style, setByUser=other_defaults(B.rng, (), 3) if style == "medium" else ())
+    # the smallest input of the unicode line-break class, always first and the same in both tiers
+    B.case(("roundtrip", "comment", norm("\x85"), "short"), {"setting": "comment", "value": "\x85", "style": "short"})
+    roundtrip([("comment", "\x85")], "short")
     # every setting x value x style
     perSetting = {}
     for name in NAMES:
@@ -653,6 +714,7 @@ DECLARED_INVALID = {
 }
 TYPE_MISMATCH_POOL = ["abc", "", "1.5x", 5, -1, 2.7, [1, 2], [], ["a"], {"a": 1}, {}, None, True]
 B.extra["coerced_admitted"] = 0
+B.extra["skipped_non_enforced_option_values"] = 0
 COERCED_KINDS = collections.Counter()
 
 
@@ -673,9 +735,11 @@ def invalid_values(name):
     out = []
     for bad in DECLARED_INVALID.get(name, []):
         out.append((bad, "declared", "reject.accepted-invalid"))
-    if s.options:
+    if s.options and s.enforcedOptions:
         for bad in near_miss_options(s):
-            out.append((bad, "unlisted-option", "reject.accepted-invalid" if s.enforcedOptions else "reject.accepted-unlisted-option"))
+            out.append((bad, "unlisted-option", "reject.accepted-invalid"))
+    elif s.options:  # not enforced: a suggestion list, the schema is the arbiter; not part of the rejection clause
+        B.extra["skipped_non_enforced_option_values"] += len(near_miss_options(s))
     if isinstance(d, bool):
         pass  # every value has a truth value: nothing is declared invalid for a bool
     elif isinstance(d, (int, float)):
@@ -718,7 +782,6 @@ def reject(name, bad, why="replay", vid="reject.accepted-invalid"):
               ("value=", lambda cs, x: setattr(dict(cs.items())[name], "value", x)),
               ("modified", lambda cs, x: cs.modified(newSettings={name: x})),
               ("read", lambda cs, x: cs.loadFromString(yaml_text({name: jsonable(x)})))]
-    nonEnforced = vid == "reject.accepted-unlisted-option"
     for route, act in routes:
         if route == "read" and norm(jsonable(bad)) != norm(bad):
             continue  # not expressible in a settings file as is (e.g. a tuple reads as a list, which may be valid)
@@ -734,7 +797,7 @@ def reject(name, bad, why="replay", vid="reject.accepted-invalid"):
         ok &= check(raised is not None, vid, "an invalid value is accepted without an error (%s)" % why, dict(desc, route=route, nowHolds=dict(cs.items())[name].value), name)
         chg, _ = diff(before, values_of(cs))
         if raised is not None:
-            ok &= check(not chg, "reject.unlisted-option-kept-after-error" if nonEnforced else "reject.value-changed", "a refused value did not leave the previous value in place", dict(desc, route=route, previous=before[name], nowHolds=dict(cs.items())[name].value, differing=chg), name)
+            ok &= check(not chg, "reject.value-changed", "a refused value did not leave the previous value in place", dict(desc, route=route, previous=before[name], nowHolds=dict(cs.items())[name].value, differing=chg), name)
     return bool(ok)
 
 
